@@ -29,7 +29,8 @@ theorem refused_lock_err (c : Cfg) (s : State) (i : Nat) (sl : Slot)
     (hl : 0 < sl.o.v.len) (hr : s.m.oracle (s.m.cnt + 1) = false) :
     step c s ⟨.lock, i⟩ =
       (.err, setSlot (resetRel s)
-        (protDrop c { (resetRel s).m with cnt := s.m.cnt + 1 } sl.o.v .unlocked (pmOf sl.o.st))
+        (protDrop c (failedLock c (resetRel s).m s.m.k (ptr c sl.o.v) sl.o.v.len) sl.o.v .unlocked
+          (pmOf sl.o.st))
         i { sl with gone := true }) := by
   show opLock c (resetRel s) i = _
   rw [opLock_eq (s := resetRel s) hi hg hu]
@@ -94,6 +95,7 @@ theorem err_cleans_up (c : Cfg) (hP : 0 < c.P) (hw : c.wipe = true) (s : State) 
   · simp only [setSlot]
     rw [protDrop_unlocked_locked]
     have hb := inv_block h hi hg
+    refine failedLock_locked_false (m := (resetRel s).m) ?_
     refine hb.all_unlocked ?_ hp
     simp only [blkOf]
     cases hst : sl.o.st with
